@@ -230,7 +230,12 @@ def pkg_of(path, dump):
 
 
 STRUCT_FIELDS = ("direct", "indirect", "all", "build/args", "build/allDeps", "build/vid", "dist/args", "dist/allDeps",
-                 "checkout/args", "checkout/allDeps", "build/provDeps", "dist/provDeps")
+                 "build/provDeps", "dist/provDeps")
+
+
+def unconsumed_checkout(pkg):
+    """the package step's ids do not cover the checkout step: script-less build step, checkout not an argument of dist"""
+    return not pkg["build"]["valid"] and not any(a[1] == "src" for a in pkg["dist"]["args"])
 
 
 def categorize(diffs, p, da, db):
@@ -267,6 +272,8 @@ def categorize(diffs, p, da, db):
             cat = "fingerprint"
         elif pkg is not None and "/env/" in "/" + field and field.split("/")[-1] in weak.get(both["packages"][pkg].get("recipe"), ()):
             cat = "weak-env"
+        elif pkg in scriptless and field.startswith("checkout/") and unconsumed_checkout(both["packages"][pkg]):
+            cat = "unconsumed-checkout"          # the checkout step feeds only the script-less build step
         elif pkg in scriptless and any(field == f or field.startswith(f + "/") or field.startswith(f + "[") for f in STRUCT_FIELDS):
             cat = "scriptless-deps"
         cats.setdefault(cat, []).append(d)
@@ -280,6 +287,9 @@ DEDUP_SIGNATURES = {
                     "a package of the same result id but with a different fingerprintIf outcome is reused"),
     "weak-env": ("dedup-by-resultid-merges-weak-env",
                  "a package of the same result id but with a different value of a weakly consumed variable is reused"),
+    "unconsumed-checkout": ("dedup-by-resultid-merges-unconsumed-checkout",
+                            "a package of the same result id is reused although the checkout step of a dependency, which feeds only "
+                            "a script-less build step, is another variant"),
     "scriptless-deps": ("dedup-by-resultid-merges-scriptless-deps",
                         "a package of the same result id is reused although a dependency that feeds only a script-less step differs"),
 }
@@ -435,7 +445,7 @@ def oracle(ctx):
     n_edits = ctx.scale(10, 25)
     del _KEYS[:]
     # leave room for the correspondence runs
-    deadline = time.time() + max(20.0, ctx.time_left() - ctx.scale(50, 240))
+    deadline = time.time() + max(20.0, ctx.time_left() - ctx.scale(70, 240))
     opts = {"inherit_false": 0.06, "deadline": deadline}
     workers = max(2, min(12, (os.cpu_count() or 4) * 3 // 4))
     # the first wave of histories always reaches its 4th state, however slow the machine is
